@@ -98,6 +98,43 @@ ARGS = {
 }
 
 
+# option alphabets: every combination of the listed values is tried for the method (in addition to the ARGS entry)
+OPTIONS = {
+    "normalize_ensemble": {"scale": ["max", "min", "sum", "mean", "ptp"], "shift": ["mean", "min", "none"]},
+    "mean": {"axis": [0, 1, (0, 1), None], "keepdims": [False, True]},
+    "sum": {"axis": [0, 1, (0, 1), None], "keepdims": [False, True]},
+    "std": {"axis": [0, (0, 1)], "keepdims": [False, True]},
+    "min": {"axis": [0, (0, 1)], "keepdims": [False, True]},
+    "max": {"axis": [0, (0, 1)], "keepdims": [False, True]},
+    "squeeze": {"axis": [None, (0,)]},
+    "expand_dims": {"axis": [None, 0, (0, 1)]},
+    "gaussian_filter": {"sigma": [0.5, (0.3, 0.6)], "boundary": ["periodic", "reflect", "constant"]},
+    "interpolate": {"sampling": [0.1, (0.1, 0.15)], "method": ["fft", "spline"], "normalization": ["values", "intensity"]},
+    "poisson_noise": {"total_dose": [1e4, [1e3, 1e4]], "samples": [1, 2], "seed": [1]},
+    "power": {"number": [2.0, 0.5, 1.0]},
+    "relative_difference": {"min_relative_tol": [0.0, 0.1]},
+    "block_direct": {"radius": [None, 5.0], "margin": [None, True]},
+    "bandlimit": {"inner": [0.0, 1.0], "outer": [30.0, float("inf")]},
+    "center_of_mass": {"units": ["1/Å", "mrad"]},
+    "integrate_radial": {"inner": [0.0, 1.0], "outer": [20.0], "offset": [(0.0, 0.0), (1.0, -2.0)]},
+    "polar_binning": {"nbins_radial": [3], "nbins_azimuthal": [1, 2], "inner": [0.0], "outer": [20.0], "rotation": [0.0, 0.3], "offset": [(0.0, 0.0), (1.0, 0.0)]},
+    "radial_binning": {"step_size": [5.0], "inner": [0.0, 5.0], "outer": [20.0]},
+    "gaussian_source_size": {"sigma": [0.3, (0.2, 0.4)]},
+    "integrate": {"radial_limits": [None, (0.0, 10.0)], "azimuthal_limits": [None], "detector_regions": [None, (0, 1)]},
+    "azimuthal_average": {"max_angle": [None, 10.0], "radial_sampling": [1.0, 2.0], "weighting_function": ["step", "gaussian"]},
+    "tile": {"repetitions": [(2, 1), (1, 3)]},
+    "ensure_lazy": {"chunks": ["auto", 1]},
+}
+
+
+def option_sets(method):
+    opts = OPTIONS.get(method)
+    if not opts:
+        return []
+    keys = list(opts)
+    return [dict(zip(keys, vals)) for vals in itertools.product(*[opts[k] for k in keys])]
+
+
 def make_measurement(cls, lazy, complex_=False):
     import abtem
     from abtem import measurements as M
@@ -152,6 +189,10 @@ def check(ctx):
             for lazy in (False, True):
                 for cplx in ((False, True) if m in ("abs", "real", "imag", "phase", "intensity") and cls in ("Images", "MeasurementsEnsemble", "RealSpaceLineProfiles") else (False,)):
                     Mc.append({"space": "M", "cls": cls, "method": m, "lazy": lazy, "complex": cplx})
+                for k, _ in enumerate(option_sets(m)):
+                    if ctx.quick and lazy and m not in ("normalize_ensemble", "poisson_noise", "gaussian_filter"):
+                        continue
+                    Mc.append({"space": "M", "cls": cls, "method": m, "lazy": lazy, "complex": False, "opt": k})
     ctx.extra["uncovered_measurement_methods"] = sorted(uncovered)
     ctx.run(A, "run_case", rule="A: (structure, entry point with options)", space="A atoms")
     ctx.run(Mc, "run_case", rule="M: (class, method, lazy[, complex]); non-trivial = the call succeeded", space="M measurement methods")
@@ -225,6 +266,9 @@ def run_case(c):
     args = ARGS[c["method"]]
     if args == "other":
         args = {"other": make_measurement(c["cls"], c["lazy"], c.get("complex", False))}
+    if c.get("opt") is not None:
+        args = dict(args, **{k: (tuple(v) if isinstance(v, list) and k in ("axis", "sigma", "sampling", "offset", "repetitions", "radial_limits", "detector_regions") else v)
+                             for k, v in option_sets(c["method"])[c["opt"]].items()})
     try:
         r = getattr(o, c["method"])(**args)
         if hasattr(r, "compute") and getattr(r, "is_lazy", False):
